@@ -57,6 +57,8 @@ func init() {
 			p.StartEra = rng.Intn(10)
 			if rng.Intn(3) == 0 {
 				p.StartEra = eraConvLimit - 1 + rng.Intn(3) // the PEG bank creates and refunds units
+				// an expensive PEG makes requests worth a few units of PEG possible (shares that round to zero)
+				p.PegPriceX = []uint64{1, 30000, 1000000}[rng.Intn(3)]
 			}
 			p.TxMean = 2 + 2*rng.Float64()
 			return p
